@@ -225,7 +225,7 @@ static U64Vec g_fine;
 static void ph_fine(void *u) {
     for (size_t i = 0; i < g_fine.n; i++) {
         if (!mc_mine(i)) continue;
-        if ((i & 255) == 0 && mc_expired()) return;
+        if (mc_tick(255)) return;
         mc_states(1);
         MC_RUN(OP_RTN, H(g_fine.v[i]));
     }
